@@ -353,12 +353,13 @@ T14 = Tuple[int, int, int, int, int, int, int, int, int, int, int, int, int, int
 
 
 def _go(v, nops, sops, bs, acts, prefix=(), fixed=()):
-    """prefix: concrete ops run first; sops[:nops]: the symbolic ops; value o means op min(max(o,0),23)"""
+    """prefix: concrete ops run first (coded 3*action+target); sops[:nops]: the symbolic ops, coded
+    3*(index into acts)+target; a value o outside 0..3*len(acts)-1 means min(max(o,0),3*len(acts)-1)"""
     ops = list(prefix)
     for o in sops[:nops]:
-        c = _c(o, 0, 24)                    # concrete from here on
-        ops.append(c)
-        if c // 3 not in acts or _pauses(ops) > B['pz'] or (not prefix and not _canon(ops)):
+        c = _c(o, 0, 3 * len(acts))         # concrete from here on
+        ops.append(3 * acts[c // 3] + c % 3)
+        if _pauses(ops) > B['pz'] or (not prefix and not _canon(ops)):
             return True                     # outside the precondition
     w = _World(v, bs, fixed)
     try:
@@ -414,12 +415,15 @@ def scenario(sc: int, v: int, ops: T6, bs: T14) -> bool:
     return _go(v, B['k'], ops, bs, CBS, pre, fixed.items())
 
 
-def _stalls(prefix, fixed, nops, ops, bs):
+def _stalls(prefix, fixed, nops, ops, bs, acts):
     """reference interpreter only: does the program reach the known-finding situation?"""
     w = _World(0, bs, fixed)
     w.ds = None
     r = w.ref
-    allops = list(prefix) + [min(max(o, 0), 23) for o in ops[:nops]]
+    allops = list(prefix)
+    for o in ops[:nops]:
+        c = min(max(o, 0), 3 * len(acts) - 1)
+        allops.append(3 * acts[c // 3] + c % 3)
     try:
         for i, op in enumerate(allops):
             t, a = op % 3, op // 3
@@ -459,18 +463,46 @@ EXCLUDE = {KEY_STALL: {"program": "_skip_stall()", "program_cbs": "_skip_stall()
 def classify(harness_name, args):
     if harness_name == "scenario":
         pre, fixed = SCEN[args["sc"]]
-        return KEY_STALL if _stalls(pre, fixed.items(), B['k'], args["ops"], args["bs"]) else None
-    n = B['n'] if harness_name == "program" else B['m']
-    return KEY_STALL if _stalls((), (), n, args["ops"], args["bs"]) else None
+        return KEY_STALL if _stalls(pre, fixed.items(), B['k'], args["ops"], args["bs"], CBS) else None
+    if harness_name == "program":
+        return KEY_STALL if _stalls((), (), B['n'], args["ops"], args["bs"], FULL) else None
+    return KEY_STALL if _stalls((), (), B['m'], args["ops"], args["bs"], CBS) else None
 
 
-def _sh1(acts):
-    # first op: action a on d0; everything else is rejected at once (not canonical / unpause first)
-    return [("ops[0] == %d" % (3 * a),) for a in acts] + [(" and ".join("ops[0] != %d" % (3 * a) for a in acts),)]
+def _bucket(k, lo, hi, size):
+    # ops[k] in [lo, hi) under the clamping convention
+    if lo == 0:
+        return "ops[%d] < %d" % (k, hi)
+    if hi == size:
+        return "ops[%d] >= %d" % (k, lo)
+    return "%d <= ops[%d] < %d" % (lo, k, hi)
+
+
+def _first(nacts):
+    """case split on the first op: action index ai on d0 (unpause, index 3, is invalid as a first op; targets
+    d1/d2 are not canonical): one shard per valid code and one for all the codes rejected at once"""
+    size = 3 * nacts
+    good = [3 * ai for ai in range(nacts) if ai != 3]
+    sh = [(_bucket(0, c, c + 1, size),) for c in good]
+    rest = " and ".join("ops[0] != %d" % c for c in good[1:]) + " and ops[0] > 0"
+    return sh, rest
+
+
+def _shards(nacts, depth):
+    """first op as above; ops 1..depth-1 split by action index"""
+    size = 3 * nacts
+    sh, rest = _first(nacts)
+    for k in range(1, depth):
+        sh = [x + (_bucket(k, 3 * ai, 3 * ai + 3, size),) for x in sh for ai in range(nacts)]
+    return sh + [(rest,)]
 
 
 HARNESSES = [
-    H(program, shards=_sh1((0, 1, 2, 4, 5, 6, 7)), timeout={"quick": 90, "thorough": 900}),
-    H(program_cbs, shards=_sh1((0, 1, 2, 7)), timeout={"quick": 90, "thorough": 900}),
-    H(scenario, shards=[("sc == %d" % k,) for k in range(len(SCEN))], timeout={"quick": 90, "thorough": 900}),
+    H(program, shards=lambda tier: _shards(8, 1 if tier == "quick" else 2),
+      timeout={"quick": 90, "thorough": 900}),
+    H(program_cbs, shards=lambda tier: _shards(5, 2 if tier == "quick" else 3),
+      timeout={"quick": 90, "thorough": 900}),
+    H(scenario, shards=lambda tier: [("sc == %d" % k,) + ((_bucket(0, 3 * ai, 3 * ai + 3, 15),) if tier != "quick" else ())
+                                     for k in range(len(SCEN)) for ai in (range(5) if tier != "quick" else (0,))],
+      timeout={"quick": 90, "thorough": 900}),
 ]
